@@ -41,6 +41,37 @@ func init() {
 		a, b := args[0].(TimeVal), args[1].(TimeVal)
 		return lower(mkAnd(mkEq(intTerm(a.Sec), intTerm(b.Sec)), mkEq(intTerm(a.Nsec), intTerm(b.Nsec))))
 	})
+	reg("(time.Time).Format", func(ex *Exec, fn *ssa.Function, args []Value, site string) Value {
+		t := args[0].(TimeVal)
+		layout, _ := args[1].(string)
+		if sec, ok := t.Sec.(int64); ok {
+			if ns, ok := t.Nsec.(int64); ok {
+				return time.Unix(sec, ns).UTC().Format(layout)
+			}
+		}
+		// symbolic instant: the rendering is an uninterpreted, injective-per-second function of the seconds
+		if layout == time.RFC3339 {
+			return lower(mkUF("rfc3339", SStr, intTerm(t.Sec)))
+		}
+		panic(pathAbort{"unsupported: symbolic Time.Format layout " + layout})
+	})
+	reg("sigs.k8s.io/release-utils/version.GetVersionInfo", func(ex *Exec, fn *ssa.Function, args []Value, site string) Value {
+		return ex.zero(fn.Signature.Results().At(0).Type())
+	})
+	reg("(*google.golang.org/protobuf/types/known/timestamppb.Timestamp).String", func(ex *Exec, fn *ssa.Function, args []Value, site string) Value {
+		// prototext rendering (never RFC 3339): "seconds:S nanos:N" with zero fields omitted
+		p := args[0].(Ptr)
+		if p.IsNil() {
+			return "<nil>"
+		}
+		st := (*p.C).(Struct)
+		sec, ns := st[len(st)-2], st[len(st)-1]
+		secT, nsT := intTerm(sec), intTerm(ns)
+		secS := mkIte(mkEq(secT, mkInt(0)), mkStr(""), mkConcat(mkStr("seconds:"), mkFromInt(secT)))
+		nsS := mkIte(mkEq(nsT, mkInt(0)), mkStr(""), mkConcat(mkStr("nanos:"), mkFromInt(nsT)))
+		both := mkAnd(mkNot(mkEq(secT, mkInt(0))), mkNot(mkEq(nsT, mkInt(0))))
+		return lower(mkConcat(secS, mkIte(both, mkStr(" "), mkStr("")), nsS))
+	})
 	reg("time.Now", func(ex *Exec, fn *ssa.Function, args []Value, site string) Value {
 		if ex.concreteMode() {
 			return TimeVal{Sec: int64(1700000000), Nsec: int64(0)}
